@@ -51,6 +51,11 @@ func init() {
 			// at least one submission had to wait for a token and got it later
 			blocked, later := false, false
 			for i, l := range c.Lines[1:] {
+				if isMulti(c) { // `<index> <op>`
+					if _, rest, ok := strings.Cut(l, " "); ok {
+						l = rest
+					}
+				}
 				if strings.HasPrefix(l, "go ") && (out[i+1] == "blocked") {
 					blocked = true
 				}
@@ -60,7 +65,7 @@ func init() {
 			}
 			return blocked && later
 		},
-		Rule:     "scripted block/finish/panic patterns on the real Limiter (panic values of 14 dynamic types, Wait(d) expiring in between), limits -2..5; non-trivial = some submission blocked on a full channel and started after a release; distinct by hash of the script",
+		Rule:     "scripted block/finish/panic patterns on the real Limiter (panic values of 14 dynamic types, Wait(d) expiring in between), limits -2..5, 12 % of the scripts drive 2–3 Limiters alternately; non-trivial = some submission blocked on a full channel and started after a release; distinct by hash of the script",
 		Classify: classify,
 		Parallel: false, // goroutine dumps (deadlock proof) must see one script at a time
 		NoShrink: true,
@@ -68,6 +73,7 @@ func init() {
 			{Name: "trace-acceptance", Run: traceExtra},
 			{Name: "stress", Run: stressExtra},
 			{Name: "recover-direct", Run: recoverExtra},
+			{Name: "child-process", Run: childExtra},
 		},
 		Assumptions: []string{
 			"Go channel semantics (buffered channel of capacity n blocks the (n+1)-th send) and sync.WaitGroup semantics (Wait returns only when the counter is zero)",
@@ -753,7 +759,92 @@ func impl(c core.Case) []string {
 	return out
 }
 
+func isMulti(c core.Case) bool {
+	h := core.Toks(c.Lines[0])
+	return len(h) >= 3 && h[2] == "multi"
+}
+
+// implMulti: several Limiters driven alternately by one script (op `<index> <op>`); each has
+// its own player (own tasks, own submitter goroutine, own event log).
+func implMulti(c core.Case) []string {
+	var ps []*player
+	lastIncon, lastDeadlock, lastNoHandler = false, "", ""
+	out := core.RunOps(c,
+		func(hdr []string) string {
+			if len(hdr) < 2 || hdr[0] != "multi" {
+				return "bad-op"
+			}
+			caps := "caps"
+			for _, h := range hdr[1:] {
+				limit, err := strconv.Atoi(h)
+				if err != nil {
+					return "bad-op"
+				}
+				p := newPlayer(limit)
+				p.n = chanCap(p.l)
+				ps = append(ps, p)
+				caps += " " + strconv.Itoa(p.n)
+			}
+			return caps
+		},
+		func(t []string) string {
+			if len(t) < 2 {
+				return "bad-op"
+			}
+			i, err := strconv.Atoi(t[0])
+			if err != nil || i < 0 || i >= len(ps) || strconv.Itoa(i) != t[0] {
+				return "bad-op"
+			}
+			return ps[i].op(t[1:])
+		})
+	for i, p := range ps {
+		if p.incon {
+			lastIncon = true
+		}
+		if p.deadlocked != "" && lastDeadlock == "" {
+			lastDeadlock = fmt.Sprintf("limiter %d: %s", i, p.deadlocked)
+		}
+		if p.noHandler != "" && lastNoHandler == "" {
+			lastNoHandler = fmt.Sprintf("limiter %d: %s", i, p.noHandler)
+		}
+		p.finishScript()
+	}
+	return out
+}
+
+// splitMulti: the sub-script and sub-output of every Limiter of a multi script.
+func splitMulti(c core.Case, out []string) ([]core.Case, [][]string) {
+	hdr := core.Toks(c.Lines[0])
+	caps := strings.Fields(out[0])
+	var cs []core.Case
+	var os [][]string
+	for i, l := range hdr[3:] {
+		cs = append(cs, core.Case{Lines: []string{"@ C19 lim " + l}, Tag: "multi-part"})
+		capi := "cap ?"
+		if len(caps) == len(hdr[3:])+1 && caps[0] == "caps" {
+			capi = "cap " + caps[i+1]
+		}
+		os = append(os, []string{capi})
+	}
+	for j := 1; j < len(c.Lines) && j < len(out); j++ {
+		t := core.Toks(c.Lines[j])
+		if len(t) < 2 {
+			continue
+		}
+		i, err := strconv.Atoi(t[0])
+		if err != nil || i < 0 || i >= len(cs) {
+			continue
+		}
+		cs[i].Lines = append(cs[i].Lines, strings.Join(t[1:], " "))
+		os[i] = append(os[i], out[j])
+	}
+	return cs, os
+}
+
 func implOnce(c core.Case) []string {
+	if isMulti(c) {
+		return implMulti(c)
+	}
 	var p *player
 	lastIncon, lastDeadlock, lastNoHandler = false, "", ""
 	out := core.RunOps(c,
@@ -785,6 +876,21 @@ func implOnce(c core.Case) []string {
 // check: the property's own predicate on the logged events (independent of the Lean
 // model): interval overlap ≤ n, exactly-once, Wait, handler values, default limit.
 func check(c core.Case, out []string) *core.Failure {
+	if isMulti(c) {
+		// every Limiter of the script is judged on its own
+		cs, os := splitMulti(c, out)
+		for i := range cs {
+			if f := checkOne(cs[i], os[i]); f != nil {
+				f.Desc = fmt.Sprintf("limiter %d of %q (judged on its own ops %v): %s", i, c.Lines[0], cs[i].Lines[1:], f.Desc)
+				return f
+			}
+		}
+		return nil
+	}
+	return checkOne(c, out)
+}
+
+func checkOne(c core.Case, out []string) *core.Failure {
 	hdr := core.Toks(c.Lines[0])
 	limit, _ := strconv.Atoi(hdr[3])
 	n := limit
@@ -940,6 +1046,9 @@ func corpus() []core.Case {
 		// functions are inside: each value goes to the handler configured at ITS submission
 		{Lines: []string{"@ C19 lim 2", "go 0 ok", "release 0", "wait", "sethandler 1", "go 1 panic 5", "release 1", "wait", "go 2 panic 6", "sethandler 2", "go 3 panic err:7", "release 3", "release 2", "sethandler 0", "go 4 panic nil", "sethandler 3", "release 4", "go 5 panic tnp", "go 6 panic 8", "go 7 panic 9", "release 5", "release 6", "release 7", "wait", "k"}},
 		{Lines: []string{"@ C19 lim 1", "sethandler 2", "go 0 panic 1", "release 0", "sethandler 2", "go 1 panic 2", "sethandler 1", "release 1", "go 2 panic 3", "go 3 panic 4", "release 2", "release 3", "wait", "k"}},
+		// several Limiters at once, driven alternately (each judged on its own)
+		{Lines: []string{"@ C19 multi 1 2", "0 go 0 ok", "1 go 0 panic 5", "1 go 1 ok", "0 go 1 panic nil", "1 go 2 ok", "0 k", "1 k", "1 sethandler 2", "0 release 0", "1 release 0", "0 wait", "1 release 2", "0 release 1", "1 go 3 panic err:3", "1 wait", "1 release 1", "1 release 3", "0 wait", "0 k", "1 k"}, Tag: "multi"},
+		{Lines: []string{"@ C19 multi 0 1 1", "1 go 0 ok", "2 go 0 ok", "1 go 1 ok", "2 go 1 panic 7", "0 go 0 ok", "0 go 1 ok", "0 go 2 ok", "0 go 3 ok", "2 release 0", "1 release 0", "0 release 1", "2 release 1", "1 release 1", "0 release 0", "0 release 2", "0 release 3", "0 wait", "1 wait", "2 wait", "0 k", "1 k", "2 k"}, Tag: "multi"},
 		// Limiter reuse over several Go/Wait rounds: every Wait must wait for ITS round
 		// (an idle signal cached from an earlier round must not satisfy a later Wait)
 		{Lines: []string{"@ C19 lim 1", "go 0 ok", "release 0", "wait", "go 1 ok", "wait", "release 1", "wait", "go 2 panic nil", "wait", "wait", "release 2", "go 3 ok", "go 4 ok", "release 3", "wait", "release 4", "k"}},
@@ -950,7 +1059,96 @@ func corpus() []core.Case {
 // gen: mostly-valid scripts biased towards the mechanism: fill the channel, submit
 // beyond the limit, release in arbitrary order (panicking and returning), submit
 // after panics, Wait at quiescent points of the submitter.
+// genMulti: 2–3 Limiters (different limits) driven alternately by one script; no timed waits
+// (their helper goroutines are looked for process-wide).
+func genMulti(r *core.Rand) core.Case {
+	k := r.Range(2, 3)
+	type lim struct {
+		n, next          int
+		holding, pending []int
+		waiting          int
+	}
+	hdr := "@ C19 multi"
+	ls := make([]*lim, k)
+	for i := range ls {
+		limit := []int{1, 1, 2, 2, 3, -1, 0}[r.Intn(7)]
+		n := limit
+		if n < 1 {
+			n = 3
+		}
+		ls[i] = &lim{n: n}
+		hdr += " " + strconv.Itoa(limit)
+	}
+	lines := []string{hdr}
+	release := func(i int, l *lim) {
+		j := r.Intn(len(l.holding))
+		lines = append(lines, fmt.Sprintf("%d release %d", i, l.holding[j]))
+		l.holding = append(l.holding[:j], l.holding[j+1:]...)
+		if len(l.pending) > 0 {
+			l.holding = append(l.holding, l.pending[0])
+			l.pending = l.pending[1:]
+		}
+		if len(l.holding) == 0 {
+			l.waiting = 0
+		}
+	}
+	for step := r.Range(10, 30); step > 0; step-- {
+		i := r.Intn(k)
+		l := ls[i]
+		switch r.Pick(48, 32, 8, 6, 6) {
+		case 0:
+			if l.waiting > 0 || len(l.pending) >= 2 {
+				continue
+			}
+			if r.Chance(35) {
+				tok := strconv.Itoa(r.Range(1, 99))
+				if r.Chance(30) {
+					tok = specialVals[r.Intn(len(specialVals))]
+				}
+				lines = append(lines, fmt.Sprintf("%d go %d panic %s", i, l.next, tok))
+			} else {
+				lines = append(lines, fmt.Sprintf("%d go %d ok", i, l.next))
+			}
+			if len(l.pending) == 0 && len(l.holding) < l.n {
+				l.holding = append(l.holding, l.next)
+			} else {
+				l.pending = append(l.pending, l.next)
+			}
+			l.next++
+		case 1:
+			if len(l.holding) > 0 {
+				release(i, l)
+			}
+		case 2:
+			if len(l.pending) == 0 && l.waiting < 2 {
+				lines = append(lines, fmt.Sprintf("%d wait", i))
+				if len(l.holding) > 0 {
+					l.waiting++
+				}
+			}
+		case 3:
+			lines = append(lines, fmt.Sprintf("%d k", i))
+		case 4:
+			if len(l.pending) == 0 {
+				lines = append(lines, fmt.Sprintf("%d sethandler %d", i, r.Range(0, 3)))
+			}
+		}
+	}
+	for i, l := range ls {
+		for len(l.holding) > 0 {
+			release(i, l)
+		}
+	}
+	for i := range ls {
+		lines = append(lines, fmt.Sprintf("%d wait", i), fmt.Sprintf("%d k", i))
+	}
+	return core.Case{Lines: lines, Tag: "multi"}
+}
+
 func gen(r *core.Rand, tier string) core.Case {
+	if r.Chance(12) {
+		return genMulti(r)
+	}
 	limit := []int{1, 1, 2, 2, 2, 3, 3, 4, 5}[r.Intn(9)]
 	if r.Chance(15) {
 		limit = r.Range(-2, 0)
@@ -1053,6 +1251,18 @@ func gen(r *core.Rand, tier string) core.Case {
 func classify(c core.Case, out []string) []string {
 	var ls []string
 	hdr := core.Toks(c.Lines[0])
+	if isMulti(c) {
+		ls = append(ls, fmt.Sprintf("multi-limiters=%d", len(hdr)-3))
+		cs, os := splitMulti(c, out)
+		for i := range cs {
+			for _, l := range classify(cs[i], os[i]) {
+				if !strings.HasPrefix(l, "limit=") {
+					ls = append(ls, l)
+				}
+			}
+		}
+		return ls
+	}
 	ls = append(ls, "limit="+hdr[3])
 	for i, l := range c.Lines[1:] {
 		o := out[i+1]
